@@ -386,6 +386,29 @@ func (c *FnCtx) tryLookup(env *Env, name string) (v Val, ok bool) {
 	return c.lookup(env, name), true
 }
 
+func (c *FnCtx) hasMethod(t types.Type, name string) bool {
+	if t == nil {
+		return false
+	}
+	if it, ok := t.Underlying().(*types.Interface); ok {
+		for i := 0; i < it.NumMethods(); i++ {
+			if it.Method(i).Name() == name {
+				return true
+			}
+		}
+		return false
+	}
+	for _, tt := range []types.Type{t, types.NewPointer(t)} {
+		ms := types.NewMethodSet(tt)
+		for i := 0; i < ms.Len(); i++ {
+			if ms.At(i).Obj().Name() == name {
+				return true
+			}
+		}
+	}
+	return false
+}
+
 // tryLookupPath resolves a dotted path a.b.c whose head is a variable (not a package).
 func (c *FnCtx) tryLookupPath(env *Env, path string) (v Val, ok bool) {
 	parts := strings.Split(path, ".")
@@ -557,7 +580,11 @@ func (c *FnCtx) selectField(env *Env, base Val, name string) Val {
 			return Val{T: types.NewPointer(ft), E: c.faddr(pt.Elem(), idx, base.E)}
 		}
 		h := c.fieldHeap(pt.Elem(), idx)
-		return Val{T: ft, E: "(select " + c.heapGet(env.st, h) + " " + base.E + ")"}
+		fv := Val{T: ft, E: "(select " + c.heapGet(env.st, h) + " " + base.E + ")"}
+		if n, ok := pt.Elem().(*types.Named); ok {
+			fv.From = n.Obj().Name() + "." + name
+		}
+		return fv
 	}
 	if st, ok := t.Underlying().(*types.Struct); ok {
 		idx, emb := findField(st, name)
@@ -568,7 +595,11 @@ func (c *FnCtx) selectField(env *Env, base Val, name string) Val {
 			panic(specError("no field " + name + " in " + t.String()))
 		}
 		si := c.ty.structInfoOf(t)
-		return Val{T: st.Field(idx).Type(), E: App(si.fields[idx], base.E)}
+		fv := Val{T: st.Field(idx).Type(), E: App(si.fields[idx], base.E)}
+		if n, ok := t.(*types.Named); ok {
+			fv.From = n.Obj().Name() + "." + name
+		}
+		return fv
 	}
 	panic(specError("selector ." + name + " on " + t.String()))
 }
@@ -656,7 +687,7 @@ func (c *FnCtx) evalCall(env *Env, x *ECall) Val {
 	}
 	if k := strings.LastIndex(x.Fun, "."); k > 0 {
 		// v.M(...) where v is a variable: a method call, not a package-qualified function
-		if rv, ok := c.tryLookupPath(env, x.Fun[:k]); ok {
+		if rv, ok := c.tryLookupPath(env, x.Fun[:k]); ok && c.hasMethod(rv.T, x.Fun[k+1:]) {
 			var as []Val
 			for i := range x.Args {
 				as = append(as, arg(i))
@@ -683,7 +714,7 @@ func (c *FnCtx) evalCall(env *Env, x *ECall) Val {
 			}
 			all = append(all, a)
 		}
-		r := c.uninterp(nil, "cb$"+cb.Name, all, sig.Results())
+		r := c.uninterp(nil, "cb$"+cb.Name, append(all[:1], c.pureArgs(env.st, all[1:])...), sig.Results())
 		if sig.Results().Len() == 1 {
 			return *r
 		}
@@ -816,9 +847,15 @@ func (c *FnCtx) evalCall(env *Env, x *ECall) Val {
 		return v
 	}
 	// application of a callback value that is declared pure: the same uninterpreted function the code's call uses
-	if fv, ok := c.tryLookup(env, x.Fun); ok && fv.T != nil {
+	fvp, okp := Val{}, false
+	if strings.Contains(x.Fun, ".") {
+		fvp, okp = c.tryLookupPath(env, x.Fun)
+	} else {
+		fvp, okp = c.tryLookup(env, x.Fun)
+	}
+	if fv := fvp; okp && fv.T != nil {
 		if sig, isSig := fv.T.Underlying().(*types.Signature); isSig {
-			cb := c.eng.callbackSpec(fv.T)
+			cb := c.eng.callbackSpecFor(fv.T, fv.From)
 			if cb == nil || !cb.Pure {
 				panic(specError("call of function value " + x.Fun + " whose type has no 'callback ...: pure' declaration"))
 			}
@@ -834,7 +871,7 @@ func (c *FnCtx) evalCall(env *Env, x *ECall) Val {
 				}
 				all = append(all, a)
 			}
-			r := c.uninterp(nil, "cb$"+cb.Name, all, sig.Results())
+			r := c.uninterp(nil, "cb$"+cb.Name, append(all[:1], c.pureArgs(env.st, all[1:])...), sig.Results())
 			return *r
 		}
 	}
